@@ -168,6 +168,70 @@ impl Tokish for CZ {
 
 /// dispatch on the storage id: $f::<T>($($a),*)
 #[macro_export]
+/// a zero-sized component on a change-tracking storage (FlaggedStorage over NullStorage)
+pub struct FZ;
+impl Drop for FZ {
+    fn drop(&mut self) {
+        log_drop(0);
+    }
+}
+impl Default for FZ {
+    fn default() -> Self {
+        MINTS.with(|m| m.set(m.get() + 1));
+        FZ
+    }
+}
+impl Component for FZ {
+    type Storage = FlaggedStorage<Self, NullStorage<Self>>;
+}
+impl Tokish for FZ {
+    fn mk(_: u64, _: i64) -> Self {
+        note_mk(0);
+        FZ
+    }
+    fn uid(&self) -> u64 {
+        0
+    }
+    fn val(&self) -> i64 {
+        0
+    }
+    fn set_val(&mut self, _: i64) {}
+}
+
+/// dispatch on the storage id: $f::<T>($($a),*)
+#[macro_export]
+/// a zero-sized component on the deferred change-tracking storage
+pub struct GZ;
+impl Drop for GZ {
+    fn drop(&mut self) {
+        log_drop(0);
+    }
+}
+impl Default for GZ {
+    fn default() -> Self {
+        MINTS.with(|m| m.set(m.get() + 1));
+        GZ
+    }
+}
+impl Component for GZ {
+    type Storage = DerefFlaggedStorage<Self, NullStorage<Self>>;
+}
+impl Tokish for GZ {
+    fn mk(_: u64, _: i64) -> Self {
+        note_mk(0);
+        GZ
+    }
+    fn uid(&self) -> u64 {
+        0
+    }
+    fn val(&self) -> i64 {
+        0
+    }
+    fn set_val(&mut self, _: i64) {}
+}
+
+/// dispatch on the storage id: $f::<T>($($a),*)
+#[macro_export]
 macro_rules! by_sid {
     ($sid:expr, $f:ident, $($a:expr),*) => {
         match $sid {
@@ -187,6 +251,8 @@ macro_rules! by_sid {
             13 => $f::<$crate::comps::GT>($($a),*),
             14 => $f::<$crate::comps::GH>($($a),*),
             15 => $f::<$crate::comps::GB>($($a),*),
+            16 => $f::<$crate::comps::FZ>($($a),*),
+            17 => $f::<$crate::comps::GZ>($($a),*),
             _ => panic!("bad storage id"),
         }
     };
@@ -196,5 +262,5 @@ pub fn is_hash_sid(sid: i64) -> bool {
     sid == 3 || sid == 9 || sid == 14
 }
 pub fn is_tracked_sid(sid: i64) -> bool {
-    (6..=15).contains(&sid)
+    (6..=17).contains(&sid)
 }
